@@ -168,6 +168,8 @@ def _run(ctx):
     rep.rule("SERVO-5", "BasicFilter clock calls enumerated", floor=3)
     rep.rule("SERVO-7", "every frequency / step handed to the clock by a filter is a constant, finite by type (fixed-point "
                         "Duration arithmetic), or checked with is_finite() on every path to the call", floor=6)
+    rep.rule("SERVO-8", "the frequency programmed by the Kalman servo is itself clamped to +-max_freq_offset (exact in "
+                        "floating point), not only the adjustment", floor=1)
     rep.rule("SERVO-6", "a Kalman servo that never received an offset sample cannot command the clock frequency: "
                         "ensure_freq_init only under a sync/delay offset sample, set_frequency in change_frequency "
                         "only under cur_frequency = Some, no other writer makes cur_frequency Some", floor=4)
@@ -201,6 +203,29 @@ def _run(ctx):
                         m = re.fullmatch(r"clamp_adjustment\((.+?), (.+), (.+?)\)", cl)
                         if m and m.group(1) == cur and m.group(3).endswith("config.max_freq_offset"):
                             ok = True
+                    # SERVO-8: in floating point cur + (bound - cur) can exceed bound by one ulp; the programmed value
+                    # itself must be the result of a clamp / min-max to +-max_freq_offset
+                    a8 = arg
+                    ok8 = False
+                    if a8[0] == "call" and a8[2] == "clamp" and len(a8[3]) == 3:
+                        lo, hi = df.canon(a8[3][1], b), df.canon(a8[3][2], b)
+                        ok8 = hi.endswith("config.max_freq_offset") and lo == "neg(%s)" % hi
+                        inner = df.strip(a8[3][0])
+                        form = df.lin(inner, b)
+                        ok = False
+                        if len(form) == 2 and all(v == 1 for v in form.values()):
+                            ks = sorted(form.keys(), key=len)
+                            cur, cl = ks[0], ks[1]
+                            m = re.fullmatch(r"clamp_adjustment\((.+?), (.+), (.+?)\)", cl)
+                            ok = bool(m and m.group(1) == cur and m.group(3).endswith("config.max_freq_offset"))
+                    if ok8:
+                        rep.ok("SERVO-8", b.key, "programmed frequency is clamp(_, -max_freq_offset, max_freq_offset)", where=where)
+                    else:
+                        rep.violation("SERVO-8", b.key, "programmed frequency clamped itself",
+                                      "the frequency handed to the clock is `%s`: the bound is enforced only on the "
+                                      "adjustment (current + (bound - current)), which in f64 can exceed the bound by one "
+                                      "ulp (e.g. current = -376.76736994010565, bound = 400 gives 400.00000000000006)" % s[:160],
+                                      where=where)
                     if ok:
                         rep.ok("SERVO-1", b.key, "set_frequency(cur + clamp_adjustment(cur, _, max_freq_offset))", detail=s, where=where)
                     else:
